@@ -316,7 +316,7 @@ func (dec *Decoder) SetReference(i int, o interface{}) {
 // LastReferenceIndex returns the last index of the reference.
 func (dec *Decoder) LastReferenceIndex() int {
 	if !dec.IsSimple() {
-		dec.refer.Last()
+		return dec.refer.Last()
 	}
 	return -1
 }
